@@ -57,6 +57,12 @@ def run(tier):
                  else zoo.link('K', 1000 + pos * 37, 'natural', n=9000, goff=100000 + pos, q=0.6, ch=2) for pos, kind in enumerate(seq)]
         cases.append('s 0 ' + ' '.join(spec(p, m) for p, m in links))
         meta.append((seq, ['goff-bigpages'] * len(seq)))
+    # a link whose comment header is very large (embedded cover art: comment + setup span 3-5 maximal pages), in every position of a chain
+    for size in (70000, 140000, 200000):
+        for seq in (['L'], ['A', 'L'], ['L', 'A'], ['A', 'L', 'B']):
+            links = [zoo.big_comment('A', 1400 + pos * 13, size) if kind == 'L' else zoo.link(kind, 1400 + pos * 13, '3') for pos, kind in enumerate(seq)]
+            cases.append('s 0 ' + ' '.join(spec(p, m) for p, m in links))
+            meta.append((seq, ['bigcomment%d' % size if k == 'L' else '3' for k in seq]))
     # adjacent links of the SAME format (channels, rate, block sizes) but different set-up headers (encoded at different qualities): the decoder must be
     # rebuilt from each link's own codebooks
     for qs in ((0.1, 0.9), (0.9, 0.1), (0.1, 0.5, 0.9), (0.5, 0.5, 0.0)):
